@@ -7,6 +7,7 @@ HARNESS = os.path.join(VERIF, "harness")
 GDMODEL = os.path.join(LEAN, ".lake", "build", "bin", "gdmodel")
 GDHARNESS = os.path.join(HARNESS, "target", "debug", "gdharness")
 WORK = os.path.join(VERIF, ".work")
+REPO = os.path.realpath(os.path.join(VERIF, "repo-link"))
 ALLOWED_AXIOMS = {"propext", "Classical.choice", "Quot.sound"}
 ENV = dict(os.environ, CARGO_NET_OFFLINE="true")
 
@@ -38,7 +39,7 @@ def sh(cmd, cwd=None, timeout=None, input=None):
 def build_harness():
     """Rebuild the harness against /repo's working tree (hooks on). Returns (ok, log)."""
     with Lock("cargo"):
-        lock_src = "/repo/Cargo.lock"
+        lock_src = os.path.join(REPO, "Cargo.lock")
         dst = os.path.join(HARNESS, "Cargo.lock")
         # keep the harness lock file in step with the repository's (offline: no resolution possible)
         if not os.path.exists(dst):
@@ -115,34 +116,48 @@ def theorems_in(module_file):
     return re.findall(r"^theorem\s+([A-Za-z0-9_.']+)", src, re.M)
 
 
+def prop_modules(pid):
+    """Props/<pid>.lean plus Props/<pid>_*.lean (one file per protocol family)"""
+    d = os.path.join(LEAN, "GdVerif", "Props")
+    names = []
+    if os.path.exists(os.path.join(d, f"{pid}.lean")):
+        names.append(pid)
+    names += sorted(f[:-5] for f in os.listdir(d) if f.startswith(pid + "_") and f.endswith(".lean"))
+    return names
+
+
 def proof_stage(pid, tier):
-    """Build Props/<pid>.lean, audit axioms of every theorem in it.
+    """Build Props/<pid>*.lean, audit axioms of every theorem in them.
     Returns dict(ok, obligations, discharged, failures[list of str], theorems, axioms)"""
-    mod = f"GdVerif.Props.{pid}"
-    path = os.path.join(LEAN, "GdVerif", "Props", f"{pid}.lean")
     res = dict(ok=False, obligations=0, discharged=0, failures=[], theorems=[], axioms=[], log="")
-    if not os.path.exists(path):
-        res["failures"].append(f"missing {path}")
+    files = prop_modules(pid)
+    if not files:
+        res["failures"].append(f"missing GdVerif/Props/{pid}.lean")
         return res
-    names = theorems_in(path)
+    mods = [f"GdVerif.Props.{f}" for f in files]
+    names = []
+    for f in files:
+        names += theorems_in(os.path.join(LEAN, "GdVerif", "Props", f + ".lean"))
     res["theorems"] = names
     res["obligations"] = len(names)
-    ok, out = lake_build([mod])
+    ok, out = lake_build(mods)
     res["log"] = out[-4000:]
     if not ok:
         # which theorems failed? lean reports file:line; map to the enclosing theorem
         bad = set()
-        src_lines = open(path).read().split("\n")
-        for m in re.finditer(r"Props/%s\.lean:(\d+):\d+: error" % pid, out):
-            ln = int(m.group(1))
-            for k in range(min(ln, len(src_lines)) - 1, -1, -1):
-                mm = re.match(r"^(?:theorem|def|example|lemma)\s+([A-Za-z0-9_.']+)?", src_lines[k])
-                if mm:
-                    bad.add(mm.group(1) or f"example@{k+1}")
-                    break
+        for f in files:
+            src_lines = open(os.path.join(LEAN, "GdVerif", "Props", f + ".lean")).read().split("\n")
+            for m in re.finditer(r"Props/%s\.lean:(\d+):\d+: error" % f, out):
+                ln = int(m.group(1))
+                for k in range(min(ln, len(src_lines)) - 1, -1, -1):
+                    mm = re.match(r"^(?:theorem|def|example|lemma)\s+([A-Za-z0-9_.']+)?", src_lines[k])
+                    if mm:
+                        bad.add(mm.group(1) or f"example@{f}:{k+1}")
+                        break
         if not bad:
-            bad.add("(build of %s or one of its imports failed)" % mod)
+            bad.add("(build of %s or one of their imports failed)" % ", ".join(mods))
         res["failures"] = [f"does not check: {b}" for b in sorted(bad)]
+        res["discharged"] = max(0, len(names) - len(bad))
         return res
     hits = forbidden_scan()
     if hits:
@@ -150,9 +165,9 @@ def proof_stage(pid, tier):
         return res
     # axiom audit
     audit = os.path.join(WORK, f"Audit_{pid}.lean")
-    # find namespace of each theorem: we require Props files to declare theorems at top level
     with open(audit, "w") as f:
-        f.write(f"import {mod}\n")
+        for m in mods:
+            f.write(f"import {m}\n")
         for n in names:
             f.write(f"#print axioms {n}\n")
     rc, out = sh(["lake", "env", "lean", audit], cwd=LEAN, timeout=1800)
@@ -160,7 +175,6 @@ def proof_stage(pid, tier):
         res["failures"] = ["axiom audit failed to run: " + out[-500:]]
         return res
     used = set()
-    cur = None
     discharged = 0
     text = out.replace("\n  ", " ")
     for line in text.split("\n"):
@@ -180,10 +194,11 @@ def proof_stage(pid, tier):
     if discharged != len(names) and not res["failures"]:
         res["failures"].append(f"axiom audit covered {discharged} of {len(names)} theorems")
     if tier == "thorough" and not res["failures"]:
-        rc, out = sh(["lake", "env", "leanchecker", mod], cwd=LEAN, timeout=3600)
-        if rc != 0:
-            res["failures"].append("leanchecker rejected " + mod + ": " + out[-400:])
-        res["leanchecker"] = (rc == 0)
+        for m in mods:
+            rc, out = sh(["lake", "env", "leanchecker", m], cwd=LEAN, timeout=3600)
+            if rc != 0:
+                res["failures"].append("leanchecker rejected " + m + ": " + out[-400:])
+        res["leanchecker"] = not res["failures"]
     res["ok"] = not res["failures"]
     return res
 
@@ -353,7 +368,7 @@ class Report:
             cov.update({
                 "obligations": self.proof["obligations"],
                 "discharged": self.proof["discharged"] if self.proof["ok"] else min(self.proof["discharged"], max(0, self.proof["obligations"] - 1)),
-                "checker_cmd": f"cd /verif/lean && lake build GdVerif.Props.{self.pid} && lake env lean .work/Audit_{self.pid}.lean  (# print axioms of every theorem)" + ("; lake env leanchecker GdVerif.Props.%s" % self.pid if self.tier == "thorough" else ""),
+                "checker_cmd": "cd /verif/lean && lake build " + " ".join("GdVerif.Props." + f for f in prop_modules(self.pid)) + f" && lake env lean ../.work/Audit_{self.pid}.lean  (#print axioms of every theorem)" + ("; lake env leanchecker <each module>" if self.tier == "thorough" else ""),
                 "trusted_base": ["Lean 4.33.0 kernel", "axioms: " + ", ".join(self.proof["axioms"] or ["none"])] + self.trusted,
                 "theorems": self.proof["theorems"],
                 "proof_failures": self.proof["failures"],
